@@ -5,6 +5,11 @@ COMMON_ASSUME = [
     'its bounds are not explored',
     'the reference model (vf/refmodel.py) is a faithful restatement of the documented semantics; it never imports sismic',
     'guard valuations are a pure function of (step number, guard id); clock values and delays are dyadic rationals',
+    'workload variants shared by C01-C06 (vf/execmon.py): builds through the API, YAML, an export/import round trip or a detour of '
+    'edits (move, rename, rotate, re-add, junk) on warm caches; exact twin transitions; names with format-significant characters; '
+    'priorities beyond the small-integer cache; a user-defined evaluator; clocks pre-advanced up to epoch magnitudes; an earlier '
+    'interpreter on the same Statechart; a first call aborted by a failing listener; a run that goes on with a deep copy of the '
+    'interpreter; every form of queue(); every returned MacroStep is re-read after the following steps (it may not change)',
 ]
 
 META = {
